@@ -530,6 +530,17 @@ func (t *Task) load(
 	if len(first.Header.Parent) == 32 && !bytes.Equal(localHash, first.Header.Parent) {
 		return nil, ErrReorg
 	}
+	// Partitions are fetched independently (and some may come from the
+	// cache): make sure they describe one chain before indexing them.
+	for i := 1; i < len(blocks); i++ {
+		if len(blocks[i].Header.Parent) != 32 || len(blocks[i-1].Header.Hash) != 32 {
+			continue
+		}
+		if !bytes.Equal(blocks[i].Header.Parent, blocks[i-1].Header.Hash) {
+			const tag = "blocks %d and %d are not hash-linked: source reorganized during load"
+			return nil, fmt.Errorf(tag, blocks[i-1].Num(), blocks[i].Num())
+		}
+	}
 	slog.DebugContext(ctx, "load",
 		"n", last.Num(),
 		"h", fmt.Sprintf("%.4x", last.Hash()),
